@@ -21,7 +21,7 @@ THEOREMS = {"SmVerif.Props.C05": ["SmVerif.C05." + n for n in [
     "SmVerif.Props.C17": ["SmVerif.C17.c17_safe", "SmVerif.C17.c17_safe_new"],
     "SmVerif.Props.C18": ["SmVerif.C18.c18_locate"],
     "SmVerif.Props.C20": ["SmVerif.C20.c20_total", "SmVerif.C20.c20_in_bounds"]}
-TRUSTED = BASE_TRUST + ["bytes.all is an exploration op on the real code only (panic hook + overflow checks, 10 s watchdog, counting allocator); JSON parsing, serde's recursion limit, allocation and wall-clock are outside the Lean model"]
+TRUSTED = BASE_TRUST + ["bytes.all is an exploration op on the real code only (panic hook + overflow checks, 20 s watchdog, counting allocator); JSON parsing, serde's recursion limit, allocation and wall-clock are outside the Lean model"]
 ASSUMPTIONS = ["serialisation is exercised only while the greatest generated line stays below 100000", "allocation bound: 4096 x input + 8 MiB peak",
                "c05_decoded_wf_partial and c05_reencode_decodes_partial carry size bounds (mappings string shorter than 2^32 bytes, at most 2^32 sources and names, i.e. a document below 4 GiB): the model counts lines in an unbounded Nat where the code has `dst_line as u32` (c05_decoded_wf_needs_size is the counterexample without the bound); c05_decoded_tokens is the unconditional part"]
 RULE = ("bytes.all: about 60 % valid structured documents that decode (regular maps with coordinates at 2^31 / 2^32-1 and negative deltas back to 0, wrapping deltas, up to 100001 generated lines, aligned rangeMappings, "
